@@ -32,10 +32,15 @@ def configs(tier, seed):
                 G = max(64, 1074 - f)
             out.append(_cfg('contract', s, n, f, r, o, 'pyfloat', G))
             out.append(_cfg('contract', s, n, f, r, o, 'pyint'))
-            out.append(_cfg('idem', s, n, f, r, o))
-            if o == 'saturate':
+            if tier == 'thorough' or rng.random() < 0.5:
+                out.append(_cfg('idem', s, n, f, r, o))
+            if o == 'saturate' and (tier == 'thorough' or rng.random() < 0.3):
                 out.append(_cfg('mono', s, n, f, r, o, 'pyfloat', 16 if tier == 'quick' else 64))
     return out
+
+
+def cost(cfg):
+    return {'mono': 10, 'idem': 3}.get(cfg['part'], 1)
 
 
 def _vspec(cfg, name):
